@@ -8,15 +8,19 @@ import (
 	"flag"
 	"fmt"
 	"math/rand"
+	"net"
+	"os"
 	"sort"
 	"strconv"
 	"strings"
+	"sync"
 	"time"
 
 	predis "github.com/samaritan-proxy/samaritan/proc/redis"
 
 	"verifharness/internal/cli"
 	"verifharness/internal/resp"
+	"verifharness/internal/sched"
 	"verifharness/internal/simredis"
 	"verifharness/internal/sut"
 )
@@ -25,6 +29,103 @@ func init() {
 	cli.Register("c18-replay", replay)
 	cli.Register("c18-cursors", cursors)
 	cli.Register("c18-keyspace", keyspace)
+	cli.Register("c18-hosts", hosts)
+}
+
+// lineWriter writes one JSON line per record straight to the file: the
+// process hosting the proxy may die (a panic in a session goroutine), what
+// was written before must be on disk.
+type lineWriter struct {
+	mu sync.Mutex
+	f  *os.File
+}
+
+func newLineWriter(path string) (*lineWriter, error) {
+	f, err := os.Create(path)
+	if err != nil {
+		return nil, err
+	}
+	return &lineWriter{f: f}, nil
+}
+
+func (w *lineWriter) Write(v interface{}) error {
+	b, err := json.Marshal(v)
+	if err != nil {
+		return err
+	}
+	w.mu.Lock()
+	defer w.mu.Unlock()
+	_, err = w.f.Write(append(b, '\n'))
+	return err
+}
+
+func (w *lineWriter) Close() error { return w.f.Close() }
+
+// begin is written before a case starts: the last begin without a result is
+// the case the process died in.
+type begin struct {
+	Begin int    `json:"begin"`
+	Case  string `json:"case,omitempty"`
+}
+
+// ---- the window W_WriterMayEncodeWhilePublisherRuns of Scan.tla
+//
+// The goroutine that completes a forwarded SCAN is parked right after it has
+// published the response to the session (rawRequest.SetResponse, after the
+// done latch is closed) until the client has received the reply: the session
+// writer encodes the response object as it is at the moment of publication.
+
+const pubKey = "scan.published"
+
+type gate struct{ sc *sched.Sched }
+
+func newGate() *gate {
+	g := &gate{sc: sched.New(func(point string, a, b interface{}) string {
+		if point != "rawRequest.SetResponse.published" {
+			return ""
+		}
+		o := predis.VerifDescribe(a)
+		if o.Kind == "raw" && len(o.Args) > 0 && strings.EqualFold(o.Args[0], "scan") {
+			return pubKey
+		}
+		return ""
+	})}
+	g.sc.Install()
+	return g
+}
+
+// do sends one command; with window the publisher of the reply is held until
+// the client has the reply. windowed reports that the reply was received
+// while the publisher was parked.
+func (g *gate) do(c *sut.Client, window bool, args ...string) (v resp.Value, err error, windowed bool, note string) {
+	if g == nil || !window {
+		v, err = c.Do(3*time.Second, args...)
+		return
+	}
+	g.sc.Gate(pubKey)
+	if err = c.SendCmd(args...); err != nil {
+		g.sc.Ungate(pubKey)
+		return
+	}
+	if !g.sc.WaitParked(pubKey, 2*time.Second) {
+		g.sc.Ungate(pubKey)
+		note = "the reply was never published"
+		v, err = c.Recv(3 * time.Second)
+		return
+	}
+	v, err = c.Recv(time.Second)
+	g.sc.Ungate(pubKey)
+	if err == nil {
+		windowed = true
+		return
+	}
+	if ne, ok := err.(net.Error); ok && ne.Timeout() {
+		// published by the goroutine that feeds the writer (a reply made by the
+		// proxy itself): it can only be written after the release
+		note = "reply only after the publisher was released"
+		v, err = c.Recv(3 * time.Second)
+	}
+	return
 }
 
 const base = 256 // Base of Scan.tla, stands for 2^48
@@ -56,11 +157,13 @@ type config struct {
 }
 
 type result struct {
-	ID    int      `json:"id"`
-	Nodes int      `json:"nodes"`
-	Calls int      `json:"calls"`
-	Bad   []string `json:"bad"`
-	Err   string   `json:"err,omitempty"`
+	ID      int      `json:"id"`
+	Nodes   int      `json:"nodes"`
+	Calls   int      `json:"calls"`
+	Windows int      `json:"windows"` // forwarded calls whose reply was received while the publisher was parked
+	Notes   []string `json:"notes,omitempty"`
+	Bad     []string `json:"bad"`
+	Err     string   `json:"err,omitempty"`
 }
 
 type env struct {
@@ -68,9 +171,10 @@ type env struct {
 	sorted  []*simredis.Node // in the order of the proxy's sorted host list
 	proxies map[int]*sut.Redis
 	clients map[int]*sut.Client
+	g       *gate // nil: free running
 }
 
-func newEnv(max int) (*env, error) {
+func newEnv(min, max int) (*env, error) {
 	cl, err := simredis.NewCluster(max, 0)
 	if err != nil {
 		return nil, err
@@ -78,16 +182,19 @@ func newEnv(max int) (*env, error) {
 	e := &env{cl: cl, proxies: map[int]*sut.Redis{}, clients: map[int]*sut.Client{}}
 	e.sorted = append(e.sorted, cl.Nodes...)
 	sort.Slice(e.sorted, func(i, j int) bool { return e.sorted[i].Addr < e.sorted[j].Addr })
-	for n := 1; n <= max; n++ {
+	for n := min; n <= max; n++ {
 		var seeds []string
 		for _, nd := range e.sorted[:n] {
 			seeds = append(seeds, nd.Addr)
 		}
+		// n = 0: a service that has no (healthy) host
 		px, err := sut.StartRedis(sut.RedisOpts{}, seeds)
 		if err != nil {
 			return nil, err
 		}
-		sut.WaitRefresh(px.Name, 2*time.Second)
+		if n > 0 {
+			sut.WaitRefresh(px.Name, 2*time.Second)
+		}
 		e.proxies[n] = px
 		c, err := sut.Dial(px.Addr)
 		if err != nil {
@@ -108,12 +215,11 @@ func (e *env) close() {
 	e.cl.Close()
 }
 
-func (e *env) replayOne(id int, cfg config, rnd *rand.Rand) (res result) {
-	n := len(cfg.Nodes)
-	res = result{ID: id, Nodes: n}
-	// script the chains; every step returns one key named after (node, cursor)
+// script makes the nodes answer SCAN with the chains; every step returns one
+// key named after (node, cursor). It returns all keys stored.
+func (e *env) script(nodes []*simredis.Node, chains [][]uint64) map[string]bool {
 	allKeys := map[string]bool{}
-	for i, ch := range cfg.Nodes {
+	for i, ch := range chains {
 		m := map[uint64]simredis.ScanStep{}
 		cur := uint64(0)
 		for j := 0; j <= len(ch); j++ {
@@ -127,28 +233,54 @@ func (e *env) replayOne(id int, cfg config, rnd *rand.Rand) (res result) {
 			cur = next
 		}
 		e.cl.Lock()
-		e.sorted[i].ScanChain = m
+		nodes[i].ScanChain = m
 		e.cl.Unlock()
-		e.sorted[i].ClearLog()
+		nodes[i].ClearLog()
 	}
-	c := e.clients[n]
-	extra := []string{}
+	return allKeys
+}
+
+func pickExtra(rnd *rand.Rand) []string {
 	switch rnd.Intn(3) {
 	case 0:
-		extra = []string{"MATCH", "key-*", "COUNT", "7"}
+		return []string{"MATCH", "key-*", "COUNT", "7"}
 	case 1:
-		extra = []string{"count", "100"}
+		return []string{"count", "100"}
 	}
+	return []string{}
+}
+
+func (e *env) redial(n int) {
+	e.clients[n].Close()
+	nc, err := sut.Dial(e.proxies[n].Addr)
+	if err == nil {
+		e.clients[n] = nc
+	}
+}
+
+// iterate runs the client's loop from cursor 0 through proxy px (whose healthy
+// host list is nodes, in this order) and judges it against the model's calls.
+// With window every forwarded call is completed in the window
+// W_WriterMayEncodeWhilePublisherRuns.
+func (e *env) iterate(res *result, cfg config, nodes []*simredis.Node, px int, extra []string, window bool) {
+	allKeys := e.script(nodes, cfg.Nodes)
+	c := e.clients[px]
 	cursor := "0"
 	seen := map[string]bool{}
 	for i := 0; i <= len(cfg.Calls)+3; i++ {
 		args := append([]string{"SCAN", cursor}, extra...)
-		v, err := c.Do(3*time.Second, args...)
+		// the model says which calls are forwarded to a node (the others are answered by the goroutine that feeds the writer)
+		forwarded := i < len(cfg.Calls) && cfg.Calls[i].Node != 0
+		v, err, windowed, note := e.g.do(c, window && forwarded, args...)
+		if windowed {
+			res.Windows++
+		}
+		if note != "" {
+			res.Notes = append(res.Notes, fmt.Sprintf("call %d: %s", i+1, note))
+		}
 		if err != nil {
 			res.Bad = append(res.Bad, fmt.Sprintf("call %d: no reply: %v", i+1, err))
-			c.Close()
-			nc, _ := sut.Dial(e.proxies[n].Addr)
-			e.clients[n] = nc
+			e.redial(px)
 			return
 		}
 		res.Calls++
@@ -188,7 +320,7 @@ func (e *env) replayOne(id int, cfg config, rnd *rand.Rand) (res result) {
 	// each node received exactly its chain, once, in order, with MATCH / COUNT verbatim
 	for i, ch := range cfg.Nodes {
 		var got []string
-		for _, r := range e.sorted[i].Records() {
+		for _, r := range nodes[i].Records() {
 			if r.Cmd() == "scan" {
 				got = append(got, string(r.Args[1]))
 				if !equalFold(r.Args[2:], extra) {
@@ -204,6 +336,12 @@ func (e *env) replayOne(id int, cfg config, rnd *rand.Rand) (res result) {
 			res.Bad = append(res.Bad, fmt.Sprintf("node %d received cursors %v, expected %v", i+1, got, want))
 		}
 	}
+}
+
+func (e *env) replayOne(id int, cfg config, rnd *rand.Rand, window bool) (res result) {
+	n := len(cfg.Nodes)
+	res = result{ID: id, Nodes: n}
+	e.iterate(&res, cfg, e.sorted[:n], n, pickExtra(rnd), window)
 	return
 }
 
@@ -223,20 +361,26 @@ func replay(args []string) error {
 	fs := flag.NewFlagSet("c18-replay", flag.ContinueOnError)
 	in := fs.String("in", "", "configurations (ndjson)")
 	out := fs.String("out", "", "results (ndjson)")
+	window := fs.Bool("window", false, "complete every forwarded call in the window W_WriterMayEncodeWhilePublisherRuns")
+	from := fs.Int("from", 1, "first configuration to replay (1 based)")
 	if err := fs.Parse(args); err != nil {
 		return err
 	}
 	predis.VerifSetSlotsRefreshTimers(time.Hour, time.Hour)
-	e, err := newEnv(3)
-	if err != nil {
-		return err
-	}
-	defer e.close()
-	w, err := cli.NewNDJSONWriter(*out)
+	w, err := newLineWriter(*out)
 	if err != nil {
 		return err
 	}
 	defer w.Close()
+	e, err := newEnv(0, 3)
+	if err != nil {
+		return err
+	}
+	defer e.close()
+	if *window {
+		e.g = newGate()
+		defer e.g.sc.Uninstall()
+	}
 	rnd := rand.New(rand.NewSource(cli.Seed()))
 	id := 0
 	return cli.ReadNDJSON(*in, func(line []byte) error {
@@ -245,7 +389,15 @@ func replay(args []string) error {
 			return err
 		}
 		id++
-		return w.Write(e.replayOne(id, cfg, rnd))
+		if len(cfg.Nodes) > 3 {
+			return fmt.Errorf("configuration %d has %d nodes", id, len(cfg.Nodes))
+		}
+		extraSeed := rnd.Int63() // one draw per configuration, also for skipped ones: a restart replays the same cases
+		if id < *from {
+			return nil
+		}
+		w.Write(begin{Begin: id})
+		return w.Write(e.replayOne(id, cfg, rand.New(rand.NewSource(extraSeed)), *window))
 	})
 }
 
@@ -263,7 +415,7 @@ func cursors(args []string) error {
 	if err := fs.Parse(args); err != nil {
 		return err
 	}
-	w, err := cli.NewNDJSONWriter(*out)
+	w, err := newLineWriter(*out)
 	if err != nil {
 		return err
 	}
@@ -286,9 +438,9 @@ func cursors(args []string) error {
 		}
 	}
 	w.Write(cursorResult{Case: "roundtrip-all", OK: true})
-	// client supplied cursors through the proxy
+	// client supplied cursors through the proxy: two hosts, then no host at all
 	predis.VerifSetSlotsRefreshTimers(time.Hour, time.Hour)
-	e, err := newEnv(2)
+	e, err := newEnv(0, 2)
 	if err != nil {
 		return err
 	}
@@ -298,8 +450,10 @@ func cursors(args []string) error {
 		e.sorted[i].ScanChain = map[uint64]simredis.ScanStep{0: {Next: 0, Keys: []string{"k"}}}
 		e.cl.Unlock()
 	}
-	px := e.proxies[2]
-	probe := func(name string, raw []byte, wantTerminal, wantErr bool) {
+	seq := 0
+	probe := func(px *sut.Redis, name string, raw []byte, wantTerminal, wantErr bool) {
+		seq++
+		w.Write(begin{Begin: seq, Case: name})
 		c, err := sut.Dial(px.Addr)
 		r := cursorResult{Case: name}
 		if err != nil {
@@ -315,7 +469,7 @@ func cursors(args []string) error {
 			r.Why = "no reply: " + err.Error()
 		case wantErr && !v.IsErr():
 			r.Why = "expected an error reply, got " + v.String()
-		case wantTerminal && !(v.Kind == '*' && len(v.Arr) == 2 && string(v.Arr[0].Str) == "0" && len(v.Arr[1].Arr) == 0):
+		case wantTerminal && !isTerminal(v):
 			r.Why = "expected the terminal reply, got " + v.String()
 		default:
 			r.OK = true
@@ -328,21 +482,36 @@ func cursors(args []string) error {
 	}
 	cmd := func(a ...string) []byte { return resp.Bytes(resp.Cmd(a...)) }
 	u := func(x uint64) string { return strconv.FormatUint(x, 10) }
-	probe("past-end idx=2", cmd("SCAN", u(2<<48)), true, false)
-	probe("past-end idx=2 cur=5", cmd("SCAN", u(2<<48|5)), true, false)
-	probe("past-end idx=3", cmd("SCAN", u(3<<48)), true, false)
-	probe("past-end idx=32767", cmd("SCAN", u(32767<<48|1)), true, false)
-	probe("negative", cmd("SCAN", "-1"), true, false)
-	probe("min-int64", cmd("SCAN", "-9223372036854775808"), true, false)
-	probe("max-int64", cmd("SCAN", "9223372036854775807"), true, false)
-	probe("above-int64", cmd("SCAN", "9223372036854775808"), false, true)
-	probe("non-numeric", cmd("SCAN", "abc"), false, true)
-	probe("empty", cmd("SCAN", ""), false, true)
-	probe("no-cursor", cmd("SCAN"), false, true)
-	probe("float", cmd("SCAN", "1.5"), false, true)
-	probe("plus-zero", cmd("SCAN", "+0"), false, false)
-	probe("leading-zeros", cmd("SCAN", "000"), false, false)
+	px := e.proxies[2]
+	probe(px, "past-end idx=2", cmd("SCAN", u(2<<48)), true, false)
+	probe(px, "past-end idx=2 cur=5", cmd("SCAN", u(2<<48|5)), true, false)
+	probe(px, "past-end idx=3", cmd("SCAN", u(3<<48)), true, false)
+	probe(px, "past-end idx=32767", cmd("SCAN", u(32767<<48|1)), true, false)
+	probe(px, "negative", cmd("SCAN", "-1"), true, false)
+	probe(px, "min-int64", cmd("SCAN", "-9223372036854775808"), true, false)
+	probe(px, "max-int64", cmd("SCAN", "9223372036854775807"), true, false)
+	probe(px, "above-int64", cmd("SCAN", "9223372036854775808"), false, true)
+	probe(px, "non-numeric", cmd("SCAN", "abc"), false, true)
+	probe(px, "empty", cmd("SCAN", ""), false, true)
+	probe(px, "no-cursor", cmd("SCAN"), false, true)
+	probe(px, "float", cmd("SCAN", "1.5"), false, true)
+	probe(px, "plus-zero", cmd("SCAN", "+0"), false, false)
+	probe(px, "leading-zeros", cmd("SCAN", "000"), false, false)
+	// no healthy host: every node index is past the last node
+	px = e.proxies[0]
+	probe(px, "no-hosts idx=0", cmd("SCAN", "0"), true, false)
+	probe(px, "no-hosts idx=0 cur=10", cmd("SCAN", "10", "COUNT", "5"), true, false)
+	probe(px, "no-hosts idx=0 cur=2^48-1", cmd("SCAN", u(1<<48-1)), true, false)
+	probe(px, "no-hosts idx=1", cmd("SCAN", u(1<<48|10), "MATCH", "*"), true, false)
+	probe(px, "no-hosts idx=5", cmd("SCAN", u(5<<48)), true, false)
+	probe(px, "no-hosts idx=32768", cmd("SCAN", "-9223372036854775808"), true, false)
+	probe(px, "no-hosts idx=65535", cmd("SCAN", "-1"), true, false)
+	probe(px, "no-hosts non-numeric", cmd("SCAN", "abc"), false, true)
 	return nil
+}
+
+func isTerminal(v resp.Value) bool {
+	return v.Kind == '*' && len(v.Arr) == 2 && string(v.Arr[0].Str) == "0" && v.Arr[1].Kind == '*' && len(v.Arr[1].Arr) == 0
 }
 
 // ---- real key spaces: every stored key is returned at least once, nothing else
